@@ -35,6 +35,9 @@ EXTRA = [
 ]
 
 
+# an antecedent-style citation after more than MAX_MATCH_CHARS of uninterrupted prose (the backward window is cut)
+EXTRA += [gendocs.LONG_PROSE + sep + f for f in gendocs.ANTECEDENT_STYLE for sep in (" ", " the case of ")]
+
 to_markup = gendocs.to_markup
 
 
